@@ -213,6 +213,8 @@ class Gen:
                 'initial_time': rng.choice([0, 0, 0, 4]), 'until': None}
         if until == 'time':
             spec['until'] = {'time': rng.choice([1, 2, 3, 5, 8, 40]) + 0.5 + 2.0 ** -22}
+            if rng.random() < 0.12:
+                spec['until'] = {'time': 0}     # run(until=now): nothing later than now runs
         elif until == 'event':
             spec['until'] = {'event': rng.choice(self.events)}
         return spec
